@@ -33,6 +33,8 @@ def run(ctx):
             import pipeline_part
             return pipeline_part.replay(ctx, _rp)
         return pl.replay(ctx)
+    import pipeconn_c08
+    _bg_pipeconn_c08 = vlib.background(ctx, pipeconn_c08.run_extra, "pipeconn_c08")
     T = ctx.thorough()
     W = 8 if T else 4
     ctx.assumptions += [
@@ -142,5 +144,4 @@ def run(ctx):
 
     # ---- the same property on the real TraditionalDnsConn (deadline arming / connection death under PipelineTransport):
     # spec/PipeConnArm.tla resp. LazyPipe.tla, harness/drv_pipeconn, drv_pipeline (checks/pipeconn_c08.py)
-    import pipeconn_c08
-    pipeconn_c08.run_extra(ctx)
+    _bg_pipeconn_c08.join()
